@@ -17,9 +17,9 @@
    the rules (castling: no look at king or rook; en passant: no look at the board). The
    invariants are needed only for the illegality of the omitted king steps.
    The converse direction (generated => pseudo-legal) is in another file. *)
-From Coq Require Import Lia ZifyBool.
+From Coq Require Import Lia ZifyBool String.
 From Chess Require Import Model.MoveGen Spec.Rules Proofs.Grid Proofs.Inv Proofs.GenOk
-  Proofs.AttackSpec Proofs.PushPop2 Proofs.Abs.
+  Proofs.AttackSpec Proofs.PushPop2 Proofs.Abs Proofs.FenImport1.
 Open Scope Z_scope.
 
 (* ---- small tools ------------------------------------------------------------------------------ *)
@@ -503,3 +503,335 @@ Theorem gen_complete : forall g sm,
   exists m, In m (pseudo_moves_all g) /\ abs_move m = sm.
 Proof. intros g sm _ _ _. apply gen_complete_noinv. Qed.
 Print Assumptions gen_complete.
+
+(* ---- the omitted king steps are never legal ------------------------------------------------------------------ *)
+
+Lemma find_unique {A} (f : A -> bool) l x :
+  In x l -> f x = true -> (forall y, In y l -> f y = true -> y = x) -> find f l = Some x.
+Proof.
+  induction l as [|a l IH]; intros Hin Hfx Hu; [contradiction|]. cbn [find].
+  destruct (f a) eqn:E.
+  - f_equal. apply Hu; [left; reflexivity | exact E].
+  - destruct Hin as [->|Hin]; [congruence|]. apply IH; auto.
+    intros y Hy. apply Hu. right; exact Hy.
+Qed.
+
+Lemma has_iff_at b q k c : has b q k c = true <-> at_ b q = Some (mkPiece k c).
+Proof.
+  unfold has. destruct (at_ b q) as [[k' c']|]; cbn [pk po]; [|split; discriminate].
+  rewrite andb_true_iff, kind_eqb_eq, color_eqb_eq. split.
+  - intros [-> ->]. reflexivity.
+  - intros H. inversion H. auto.
+Qed.
+
+(* the only king of a colour is the king square of the rules *)
+Lemma king_square_at b c k :
+  valid k -> at_ b k = Some (mkPiece King c) ->
+  (forall q, valid q -> at_ b q = Some (mkPiece King c) -> q = k) ->
+  king_square b c = Some k.
+Proof.
+  intros Hv Hk Hu. unfold king_square. apply find_unique.
+  - apply (proj2 (squares64_valid k)). exact Hv.
+  - now apply has_iff_at.
+  - intros q Hq Hh. apply Hu; [now apply (proj1 (squares64_valid q)) | now apply has_iff_at].
+Qed.
+
+Lemma other_neq c : other c <> c.
+Proof. destruct c; discriminate. Qed.
+
+Lemma pseudo_legal_king g a t pr :
+  gget g a = Some (mkPiece King (g_player g)) ->
+  pseudo_legal (abs g) (mkSMove a t pr) = true ->
+  valid a /\ valid t /\ pr = None /\ own g (gget g t) = false
+  /\ (attacks (g_board g) a t = true
+      \/ exists side, is_castling (abs g) (mkSMove a t None) = Some side
+                      /\ castling_ok (abs g) side = true).
+Proof.
+  intros Ea H. unfold pseudo_legal in H. cbv zeta in H.
+  cbn [abs p_board p_turn m_from m_to m_promo] in H.
+  apply andb_true_iff in H. destruct H as [H Hpc]. apply andb_true_iff in H. destruct H as [Ha Ht].
+  apply on_board_valid in Ha, Ht.
+  change (at_ (g_board g) a) with (gget g a) in Hpc. rewrite Ea in Hpc. cbn [pk po] in Hpc.
+  apply andb_true_iff in Hpc. destruct Hpc as [Hpc Hkind].
+  apply andb_true_iff in Hpc. destruct Hpc as [_ Hown'].
+  destruct pr; [discriminate|].
+  repeat (split; [assumption || reflexivity|]). split.
+  - unfold color_at in Hown'. change (at_ (g_board g) t) with (gget g t) in Hown'.
+    destruct (gget g t) as [pc'|]; [|reflexivity]. cbn [own]. now apply negb_true_iff.
+  - apply orb_true_iff in Hkind. destruct Hkind as [Hs|Hc]; [left; exact Hs|right].
+    fold (abs g) in Hc.
+    destruct (is_castling (abs g) (mkSMove a t None)) as [side|]; [|discriminate].
+    exists side. split; [reflexivity | exact Hc].
+Qed.
+
+Lemma attacks_king b a t c :
+  at_ b a = Some (mkPiece King c) ->
+  attacks b a t = negb (pos_eqb a t)
+                  && ((Z.abs (fst t - fst a) <=? 1) && (Z.abs (snd t - snd a) <=? 1)).
+Proof. intros E. unfold attacks. rewrite E. reflexivity. Qed.
+
+Section NextToKing.
+  Context (g : game) (HR : RepInv g) (HK : KingsInv g).
+
+  Let c := g_player g.
+  Let b := g_board g.
+  Let ek := king_pos g (other c).
+
+  Lemma enemy_king_there : valid ek /\ at_ b ek = Some (mkPiece King (other c)).
+  Proof.
+    destruct HR as [_ HRu]. destruct HK as [K1 K2]. split.
+    - unfold ek. destruct (other c); [apply (ri_wking g HRu) | apply (ri_bking g HRu)].
+    - apply (K1 (other c) K2).
+  Qed.
+
+  (* a square next to the enemy king (and not its own square) is attacked by it *)
+  Lemma next_to_king_attacked b' t :
+    at_ b' ek = Some (mkPiece King (other c)) -> t <> ek ->
+    Z.abs (fst t - fst ek) <= 1 -> Z.abs (snd t - snd ek) <= 1 ->
+    attacked b' t (other c) = true.
+  Proof.
+    intros He Hne H1 H2. apply attacked_iff. exists ek, (mkPiece King (other c)).
+    split; [apply enemy_king_there|]. split; [exact He|]. split; [reflexivity|].
+    rewrite (attacks_king b' ek t (other c) He).
+    destruct (pos_eqb ek t) eqn:E; [apply pos_eqb_eq in E; congruence|].
+    cbn [negb andb]. lia.
+  Qed.
+
+  Lemma king_next_to_king_illegal_ne sm :
+    king_next_to_king g sm -> m_to sm <> king_pos g (other (g_player g)) ->
+    Rules.legal (abs g) sm = false.
+  Proof.
+    destruct sm as [a t pr]. unfold king_next_to_king. cbn [m_from m_to].
+    intros (Ea & N1 & N2) Hne. fold c ek in N1, N2, Hne.
+    unfold legal. destruct (pseudo_legal (abs g) (mkSMove a t pr)) eqn:Hps; [|reflexivity].
+    cbn [andb]. apply negb_false_iff.
+    destruct (pseudo_legal_king g a t pr Ea Hps) as (Hva & Hvt & -> & Hown & Hmove).
+    fold b in Hmove.
+    destruct enemy_king_there as [Hvek Hek].
+    destruct HR as [HC HRu]. pose proof (ci_board g HC) as Hwf. fold b in Hwf.
+    change (gget g a) with (at_ b a) in Ea.
+    destruct Hmove as [Hstep | (side & Eis & Hcas)].
+    - (* a king step: afterwards the king stands on t, next to the other king *)
+      rewrite (attacks_king b a t c Ea) in Hstep.
+      apply andb_true_iff in Hstep. destruct Hstep as [Hn Hstep].
+      assert (Hat : t <> a) by (intros ->; rewrite pos_eqb_refl in Hn; discriminate).
+      assert (Eis : is_castling (abs g) (mkSMove a t None) = None).
+      { destruct (is_castling (abs g) (mkSMove a t None)) as [side|] eqn:E; [|reflexivity].
+        apply is_castling_some in E. cbn [m_from m_to] in E. destruct E as [-> ->].
+        cbn [fst snd] in Hstep. destruct side; lia. }
+      assert (Eep : is_en_passant (abs g) (mkSMove a t None) = false).
+      { unfold is_en_passant, has. cbn [abs p_board p_turn m_from m_to].
+        fold b. rewrite Ea. reflexivity. }
+      assert (Eb : p_board (Rules.apply (abs g) (mkSMove a t None))
+                   = put (put b a None) t (Some (mkPiece King c))).
+      { unfold Rules.apply. cbn [p_board]. rewrite Eis, Eep.
+        cbn [abs p_board m_from m_to m_promo]. fold b. rewrite Ea. reflexivity. }
+      set (b' := put (put b a None) t (Some (mkPiece King c))) in *.
+      assert (Ht' : at_ b' t = Some (mkPiece King c)).
+      { unfold b', at_, put. apply grid_get_set_same; [apply wf_grid_set; exact Hwf | exact Hvt]. }
+      assert (Hoth : forall q, q <> t -> q <> a -> at_ b' q = at_ b q).
+      { intros q Q1 Q2. unfold b', at_, put.
+        rewrite grid_get_set_other by congruence. apply grid_get_set_other. congruence. }
+      assert (Ha' : at_ b' a = None).
+      { unfold b', at_, put. rewrite grid_get_set_other by congruence.
+        apply grid_get_set_same; assumption. }
+      unfold in_check. rewrite Eb. cbn [abs p_turn]. fold c.
+      rewrite (king_square_at b' c t Hvt Ht').
+      + apply next_to_king_attacked; try assumption.
+        rewrite Hoth; [exact Hek | congruence |].
+        intros E. rewrite E, Ea in Hek. inversion Hek as [X]. symmetry in X. now apply other_neq in X.
+      + intros q Hq Hkq. destruct (pos_eqb q t) eqn:E1; [now apply pos_eqb_eq in E1|].
+        assert (Q1 : q <> t) by (intros ->; rewrite pos_eqb_refl in E1; discriminate).
+        destruct (pos_eqb q a) eqn:E2.
+        * apply pos_eqb_eq in E2. subst q. rewrite Ha' in Hkq. discriminate.
+        * assert (Q2 : q <> a) by (intros ->; rewrite pos_eqb_refl in E2; discriminate).
+          rewrite (Hoth q Q1 Q2) in Hkq. exfalso. apply Q2.
+          rewrite <- (ri_kings g HRu q c Hq Hkq). apply (ri_kings g HRu a c Hva Ea).
+    - (* castling onto a square next to the other king: not even pseudo-legal *)
+      exfalso. apply is_castling_some in Eis. cbn [abs p_turn m_from m_to] in Eis.
+      destruct Eis as [_ Et]. fold c in Et.
+      assert (Hatt : attacked b t (other c) = true) by (now apply next_to_king_attacked).
+      unfold castling_ok in Hcas. cbn [abs p_board p_turn] in Hcas. fold b c in Hcas.
+      apply andb_true_iff in Hcas. destruct Hcas as [_ Hcas].
+      rewrite <- Et, Hatt in Hcas. discriminate.
+  Qed.
+
+  (* a pseudo-legal king move onto the other king's square means that the side not to move is
+     in check *)
+  Lemma king_capture_gives_check sm :
+    king_next_to_king g sm -> pseudo_legal (abs g) sm = true ->
+    m_to sm = king_pos g (other (g_player g)) ->
+    in_check (abs g) (other (g_player g)) = true.
+  Proof.
+    destruct sm as [a t pr]. unfold king_next_to_king. cbn [m_from m_to].
+    intros (Ea & _ & _) Hps Et. fold c ek in Et. subst t.
+    destruct (pseudo_legal_king g a ek pr Ea Hps) as (Hva & Hvt & -> & Hown & Hmove).
+    fold b in Hmove.
+    destruct enemy_king_there as [Hvek Hek].
+    destruct HR as [HC HRu].
+    change (gget g a) with (at_ b a) in Ea.
+    destruct Hmove as [Hstep | (side & Eis & Hcas)].
+    - unfold in_check. cbn [abs p_board]. fold b c.
+      rewrite (king_square_at b (other c) ek Hvek Hek).
+      + apply attacked_iff. exists a, (mkPiece King c). split; [exact Hva|]. split; [exact Ea|].
+        split; [destruct c; reflexivity | exact Hstep].
+      + intros q Hq Hkq. symmetry. apply (ri_kings g HRu q (other c) Hq Hkq).
+    - exfalso. apply is_castling_some in Eis. cbn [abs p_turn m_from m_to] in Eis.
+      destruct Eis as [_ Et]. fold c in Et.
+      unfold castling_ok in Hcas. cbn [abs p_board p_turn] in Hcas. fold b c in Hcas.
+      repeat (apply andb_true_iff in Hcas; let H' := fresh "H" in destruct Hcas as [Hcas H']).
+      assert (He : empty b ek = true).
+      { rewrite Et. destruct side; [|apply andb_true_iff in H2; destruct H2 as [H2 _]];
+          apply andb_true_iff in H2; apply H2. }
+      unfold empty in He. rewrite Hek in He. discriminate.
+  Qed.
+
+  Theorem king_next_to_king_illegal : forall sm,
+    in_check (abs g) (other (g_player g)) = false ->
+    king_next_to_king g sm -> Rules.legal (abs g) sm = false.
+  Proof.
+    intros sm Hnc Hk.
+    destruct (pseudo_legal (abs g) sm) eqn:Hps; [|unfold legal; now rewrite Hps].
+    apply king_next_to_king_illegal_ne; [exact Hk|].
+    intros Et. rewrite (king_capture_gives_check sm Hk Hps Et) in Hnc. discriminate.
+  Qed.
+
+  (* every legal move is generated *)
+  Theorem gen_complete_legal : forall sm,
+    in_check (abs g) (other (g_player g)) = false ->
+    Rules.legal (abs g) sm = true ->
+    exists m, In m (pseudo_moves_all g) /\ abs_move m = sm.
+  Proof.
+    intros sm Hnc Hl. apply gen_complete_noinv.
+    - unfold legal in Hl. apply andb_true_iff in Hl. apply Hl.
+    - intros Hk. rewrite (king_next_to_king_illegal sm Hnc Hk) in Hl. discriminate.
+  Qed.
+End NextToKing.
+
+Print Assumptions king_next_to_king_illegal_ne.
+Print Assumptions king_next_to_king_illegal.
+Print Assumptions gen_complete_legal.
+
+(* ---- the hypothesis on the other king's square cannot be dropped ------------------------------------------- *)
+
+(* Kings side by side with the side to move able to take the other king (not reachable by legal
+   play: the side not to move is in check). The invariants hold, the king capture is legal for
+   the rules as written and is a "king next to king" move, and the generator produces nothing. *)
+Definition KK_FEN : list N := txt "8/8/8/8/8/8/8/Kk6 w - - 0 1"%string.
+Definition KK : game := imported KK_FEN.
+
+Lemma KK_import : Model.Fen.import KK_FEN = Ok KK.
+Proof. vm_compute. reflexivity. Qed.
+
+Lemma KK_kings_unique :
+  forallb (fun p => forallb (fun c => implb (opiece_eqb (bget (g_board KK) p) (Some (mkPiece King c)))
+                                            (pos_eqb (king_pos KK c) p)) all_colors) squares64 = true.
+Proof. vm_compute. reflexivity. Qed.
+
+Lemma KK_repinv : RepInv KK.
+Proof.
+  split; [exact (FenImport1.import_cache _ _ KK_import)|].
+  destruct (FenImport1.import_rule_easy _ _ KK_import) as (H1 & _ & _ & H2 & H3 & H4 & H5 & H6).
+  constructor; try assumption.
+  - intros p c Hp Hk. pose proof KK_kings_unique as H. rewrite forallb_forall in H.
+    specialize (H p (proj2 (squares64_valid p) Hp)). rewrite forallb_forall in H.
+    assert (Hc : In c all_colors) by (destruct c; cbn; tauto).
+    specialize (H c Hc). rewrite Hk in H.
+    replace (opiece_eqb (Some (mkPiece King c)) (Some (mkPiece King c))) with true in H
+      by (symmetry; now apply opiece_eqb_eq).
+    cbn [implb] in H. now apply pos_eqb_eq in H.
+  - intros c _. split; intros H; destruct c; vm_compute in H; discriminate.
+  - intros H. vm_compute in H. discriminate.
+Qed.
+
+Lemma KK_kingsinv : KingsInv KK.
+Proof.
+  destruct (FenImport1.import_rule_easy _ _ KK_import) as (_ & _ & _ & _ & _ & _ & H5 & H6).
+  now apply KingsInv_intro.
+Qed.
+
+Example king_capture_counterexample :
+  RepInv KK /\ KingsInv KK /\ king_exists KK (g_player KK) = true
+  /\ king_next_to_king KK (mkSMove (0, 0) (0, 1) None)
+  /\ Rules.legal (abs KK) (mkSMove (0, 0) (0, 1) None) = true
+  /\ pseudo_moves_all KK = [].
+Proof.
+  split; [exact KK_repinv|]. split; [exact KK_kingsinv|].
+  split; [vm_compute; reflexivity|]. split.
+  - unfold king_next_to_king. cbn [m_from m_to]. split; [vm_compute; reflexivity|].
+    split; vm_compute; discriminate.
+  - split; vm_compute; reflexivity.
+Qed.
+Print Assumptions king_capture_counterexample.
+
+(* ---- the truncated buffer ------------------------------------------------------------------------------------ *)
+
+Lemma pseudo_moves_firstn g :
+  king_exists g (g_player g) = true -> pseudo_moves g = firstn 256 (pseudo_moves_all g).
+Proof. intros H. unfold pseudo_moves. rewrite H. reflexivity. Qed.
+
+Lemma pseudo_moves_all_fit g :
+  king_exists g (g_player g) = true ->
+  (length (pseudo_moves_all g) <= Z.to_nat MOVE_BUFFER_CAP)%nat ->
+  pseudo_moves g = pseudo_moves_all g.
+Proof. intros H Hl. unfold pseudo_moves. rewrite H. now apply firstn_all2. Qed.
+
+Theorem gen_complete_pseudo : forall g sm,
+  RepInv g -> KingsInv g -> king_exists g (g_player g) = true ->
+  (length (pseudo_moves_all g) <= Z.to_nat MOVE_BUFFER_CAP)%nat ->
+  pseudo_legal (abs g) sm = true -> ~ king_next_to_king g sm ->
+  exists m, In m (pseudo_moves g) /\ abs_move m = sm.
+Proof.
+  intros g sm _ _ Hke Hlen Hps Hk. rewrite (pseudo_moves_all_fit g Hke Hlen).
+  now apply gen_complete_noinv.
+Qed.
+Print Assumptions gen_complete_pseudo.
+
+Theorem gen_complete_legal_pseudo : forall g sm,
+  RepInv g -> KingsInv g -> king_exists g (g_player g) = true ->
+  (length (pseudo_moves_all g) <= Z.to_nat MOVE_BUFFER_CAP)%nat ->
+  in_check (abs g) (other (g_player g)) = false ->
+  Rules.legal (abs g) sm = true ->
+  exists m, In m (pseudo_moves g) /\ abs_move m = sm.
+Proof.
+  intros g sm HR HK Hke Hlen Hnc Hl. rewrite (pseudo_moves_all_fit g Hke Hlen).
+  now apply gen_complete_legal.
+Qed.
+Print Assumptions gen_complete_legal_pseudo.
+
+(* ---- the statements on the move lists of the rules --------------------------------------------------------- *)
+
+Lemma sane_other_not_in_check p : sane p = true -> in_check p (other (p_turn p)) = false.
+Proof.
+  unfold sane. cbv zeta. intros H.
+  repeat (apply andb_true_iff in H; let H' := fresh "H" in destruct H as [H H']).
+  match goal with X : negb (in_check _ _) = true |- _ => now apply negb_true_iff in X end.
+Qed.
+
+(* every legal move of the rules is the image of a generated move *)
+Corollary legal_moves_generated : forall g,
+  RepInv g -> KingsInv g -> in_check (abs g) (other (g_player g)) = false ->
+  incl (legal_moves (abs g)) (map abs_move (pseudo_moves_all g)).
+Proof.
+  intros g HR HK Hnc sm Hin. unfold legal_moves in Hin. apply filter_In in Hin. destruct Hin as [_ Hl].
+  destruct (gen_complete_legal g HR HK sm Hnc Hl) as (m & Hm & <-). now apply in_map.
+Qed.
+Print Assumptions legal_moves_generated.
+
+Corollary legal_moves_generated_sane : forall g,
+  RepInv g -> KingsInv g -> sane (abs g) = true ->
+  incl (legal_moves (abs g)) (map abs_move (pseudo_moves_all g)).
+Proof.
+  intros g HR HK Hs. apply legal_moves_generated; auto.
+  exact (sane_other_not_in_check (abs g) Hs).
+Qed.
+
+(* every pseudo-legal move of the rules except the omitted king steps *)
+Corollary pseudo_legal_moves_generated : forall g sm,
+  In sm (pseudo_legal_moves (abs g)) -> ~ king_next_to_king g sm ->
+  In sm (map abs_move (pseudo_moves_all g)).
+Proof.
+  intros g sm Hin Hk. unfold pseudo_legal_moves in Hin. apply filter_In in Hin. destruct Hin as [_ Hl].
+  destruct (gen_complete_noinv g sm Hl Hk) as (m & Hm & <-). now apply in_map.
+Qed.
+Print Assumptions pseudo_legal_moves_generated.
